@@ -300,16 +300,25 @@ def findExternalIPs (m : Mapper) (ct : Nat) (key : IPTok) (iface : String) : Exc
 
 /-! ## The public option path: `WithAddressRewriteRules` → `sanitizeAddressRewriteRule` (agent_options.go) -/
 
-/-- `sanitizeExternalIPs`; `acc` = the sanitized list so far, reversed (also the `seen` set). -/
-def sanitizeExts : List IPTok → List IPTok → Except Err (List IPTok)
-  | [], acc => if acc.isEmpty then .error .invalid else .ok acc.reverse
-  | .blank :: ts, acc => sanitizeExts ts acc
+/-- The loop of `sanitizeExternalIPs`; `acc` = the sanitized list so far, reversed (also the `seen`
+set): blank entries are skipped, repeated ones dropped, an unparsable one is an error. -/
+def sanitizeExtsLoop : List IPTok → List IPTok → Except Err (List IPTok)
+  | [], acc => .ok acc.reverse
+  | .blank :: ts, acc => sanitizeExtsLoop ts acc
   | .bad :: _, _ => .error .invalid
-  | .ok ip :: ts, acc => if acc.contains (.ok ip) then sanitizeExts ts acc else sanitizeExts ts (.ok ip :: acc)
+  | .ok ip :: ts, acc => if acc.contains (.ok ip) then sanitizeExtsLoop ts acc else sanitizeExtsLoop ts (.ok ip :: acc)
+
+/-- `sanitizeExternalIPs`: after the loop `if len(sanitized) == 0 && len(ips) > 0 { return nil, Err… }` —
+an EMPTY list is accepted (the documented deny / no-op rule), a non-empty list of which nothing is
+left (only blank entries) is rejected. -/
+def sanitizeExts (ips : List IPTok) : Except Err (List IPTok) :=
+  match sanitizeExtsLoop ips [] with
+  | .error e => .error e
+  | .ok out => if out.isEmpty && !ips.isEmpty then .error .invalid else .ok out
 
 /-- `sanitizeAddressRewriteRule`. -/
 def sanitizeRule (r : Rule) : Except Err Rule :=
-  match sanitizeExts r.ext [] with
+  match sanitizeExts r.ext with
   | .error e => .error e
   | .ok exts =>
     if r.loc = .bad then .error .invalid
@@ -326,6 +335,13 @@ def sanitizeAll : List Rule → Except Err (List Rule)
       match sanitizeAll rs with
       | .error e => .error e
       | .ok l => .ok (r' :: l)
+
+/-- The public path as a whole: `WithAddressRewriteRules(rules...)`, then what `NewAgent` does with the stored
+rules (`newAddressRewriteMapper`). -/
+def optionPath (rules : List Rule) : Except Err (Option Mapper) :=
+  match sanitizeAll rules with
+  | .error e => .error e
+  | .ok clean => newMapper clean
 
 /-! ## Application of a lookup result (gather.go) -/
 
